@@ -1094,6 +1094,15 @@ fn plan(seed: u64, tier: &str) -> Vec<Value> {
         out.push(json!({"name": format!("p{name}"), "mode": "paused", "workers": 1, "n": n, "data_seed": data_seed, "recs": recs,
                         "points": [], "latency_ms": dsi % 3, "gaps": profile, "alone": *k == 1, "late": late, "data_only": dsi % 2 == 0, "ids": batch_ids(*k, dsi + 1), "runs": runs}));
     }
+    // ---- market-data-only back-tests (no execution link): slow and in-memory sources, several concurrent runs
+    for (j, (mode, n, k, w, gaps)) in [("paused", 80usize, 3usize, 1usize, "long"), ("inmem", 3000, 4, 4, "short"), ("paused", 40, 1, 1, "tail")].iter().enumerate() {
+        name += 1;
+        let recs: Vec<u32> = vec![7, (*n as u32) / 2];
+        let runs: Vec<Value> = (0..*k).map(|r| json!({"variant": r, "acts": []})).collect();
+        out.push(json!({"name": format!("x{name}"), "mode": mode, "workers": w, "n": n, "data_seed": seed * 1000 + 900 + j as u64, "recs": recs,
+                        "points": [], "latency_ms": 0, "gaps": gaps, "alone": *k == 1, "late": [], "no_exec": true, "data_only": j == 1,
+                        "ids": batch_ids(*k, j + 2), "runs": runs}));
+    }
     // ---- a market data source that FAILS part way (its stream panics after k of n items) --------
     // (n, gaps, api, fails per run)
     let failing: Vec<(usize, &str, &str, Vec<Option<usize>>)> = {
@@ -1227,7 +1236,10 @@ fn run_scenario(scn: &Value, trace: &mut Out, results: &mut Out, totals: &mut Va
         tokio::runtime::Builder::new_multi_thread().worker_threads(workers).enable_all().build()
     }
     .unwrap_or_else(|e| tool_error(&format!("runtime: {e}")));
-    let executions = vec![ExecutionConfig::Mock(mock_config(latency, narrow))];
+    // `no_exec`: a market-data-only back-test - no execution link at all (nothing is ever ordered): the account
+    // stream has no producer, and the dataset must still be consumed to its end before Shutdown
+    let no_exec = scn["no_exec"].as_bool().unwrap_or(false);
+    let executions = if no_exec { vec![] } else { vec![ExecutionConfig::Mock(mock_config(latency, narrow))] };
     let gate_timeouts = Arc::new(AtomicUsize::new(0));
     let extra_streams = Arc::new(AtomicUsize::new(0));
 
